@@ -463,6 +463,7 @@ type inc struct {
 }
 
 type opRec struct {
+	Want      string // normal form of the pin as submitted
 	Pin       bool
 	Cid       string
 	Nonce     string
@@ -894,7 +895,7 @@ func (w *world) submit(pi int, s Step) *opRec {
 			pin.Origins = nil
 		}
 	}
-	rec := &opRec{Pin: isPin, Cid: pin.Cid.String(), Nonce: nonceOf(pin.Name), Peer: pi}
+	rec := &opRec{Pin: isPin, Cid: pin.Cid.String(), Nonce: nonceOf(pin.Name), Peer: pi, Want: render(pin)}
 	w.mu.Lock()
 	w.ops = append(w.ops, rec)
 	w.pend++
@@ -1517,6 +1518,15 @@ func (w *world) judgeHistory() {
 				w.run.Violate("C01/acknowledged_pin_lost", "", "LogPin %s (cid %s) returned nil but no replica ever applied it", o.Nonce, o.Cid[len(o.Cid)-6:])
 				continue
 			}
+			// pin inserts or replaces the entry: what is stored is the pin that was
+			// submitted, not a blend with whatever was applied before it
+			for _, t := range S {
+				if t.Put && t.Nonce == o.Nonce && t.Render != o.Want {
+					w.run.Violate("C01/stored_differs_from_submitted", "", "LogPin %s was submitted as\n %s\nand every replica stored\n %s", o.Nonce, o.Want, t.Render)
+					break
+				}
+			}
+			w.run.Probe("stored_compared_with_submitted")
 			// visible on the committing peer when the call returns
 			seen := false
 			for _, nd := range w.all {
